@@ -41,24 +41,23 @@ MAXREP = 4          # mismatches reported per key and worker
 
 # ------------------------------------------------------------------------------------------ TLC batches
 def tlc_batch(ctx, jobs, conc=3, workers=6):
-    """run several TLC jobs concurrently; account each through ctx.tlc (bookkeeping unchanged).
-    jobs: list of (cfg, kwargs for ctx.tlc).  Returns {cfg: TLCResult}."""
+    """run several TLC jobs concurrently and yield (job, TLCResult) in job order as they finish; each
+    result is accounted through ctx.tlc (bookkeeping unchanged).  jobs: dicts with cfg and optionally
+    module, env, expect_ok, count, workers, timeout."""
     def one(job):
-        cfg, kw = job
-        return tlcmod.run("MC_KeyEnc", cfg, workers=workers, timeout=kw.get("timeout", 2400))
-    out = {}
+        return tlcmod.run(job.get("module", "MC_KeyEnc"), job["cfg"], workers=job.get("workers", workers),
+                          timeout=job.get("timeout", 2400), env=job.get("env"))
     with ThreadPoolExecutor(conc) as ex:
         futs = [ex.submit(one, j) for j in jobs]
-        for (cfg, kw), f in zip(jobs, futs):
+        for job, f in zip(jobs, futs):
             r = f.result()
             orig = ctxmod._tlc.run
             ctxmod._tlc.run = lambda *a, _r=r, **k: _r
             try:
-                ctx.tlc("MC_KeyEnc", cfg, expect_ok=kw.get("expect_ok", True), count=kw.get("count", True))
+                ctx.tlc(job.get("module", "MC_KeyEnc"), job["cfg"], expect_ok=job.get("expect_ok", True), count=job.get("count", True))
             finally:
                 ctxmod._tlc.run = orig
-            out[cfg] = r
-    return out
+            yield job, r
 
 
 def _hdr(r, kind):
@@ -243,6 +242,8 @@ def replay_sec_toy(ctx, cname, r):
     for x in res:
         for key, whats in x[3].items():
             ctx.fail(key, "%s: %s" % (cname, whats[0]), {"curve": cname, "examples": whats})
+    for blob, e in list(acc.items())[:2]:
+        ctx.sample({"replay": "sec", "curve": cname, "blob": blob.hex(), "tlc_accepts_strict": e[0], "point": e[1], "compressed": e[2]})
     ctx.log("sec %s: %d blobs judged by TLC and executed on pycoin (x strict/lax/from_sec), %d accepted, %d off-curve pairs deferred to Key" % (
         cname, nblobs, len(acc), ndef))
     return acc
@@ -311,10 +312,14 @@ def _btc():
     return _G["btc"]
 
 
+def len_of(f):
+    return f["len"]
+
+
 def _class_consistent(f, length, xc, yc):
     """machinery check: the concrete blob has the fields the class promises"""
     shape = "c" if length == 33 else "u" if length == 65 else "bad"
-    if f["shape"] != shape:
+    if f["shape"] != shape or len_of(f) != length:
         return False
     if shape == "bad":
         return True
@@ -373,7 +378,7 @@ def _sec256_worker(recs):
 
 def replay_sec256(ctx, r):
     recs = [x for x in r.records if x.get("k") == "sec256"]
-    if len(recs) != 8 * 256:
+    if len(recs) % 256 or not recs:
         raise MachineryError("sec256: %d records" % len(recs))
     _btc()
     K.sec256_table()
@@ -391,7 +396,7 @@ def replay_sec256(ctx, r):
     ctx.replayed += n
     ctx.case(None, n)
     ctx.action("replay.sec256", n)
-    ctx.log("sec256: %d concrete secp256k1 blobs (256 prefixes x 8 lengths x 16 classes x picks) executed" % n)
+    ctx.log("sec256: %d concrete secp256k1 blobs (256 prefixes x %d lengths x 16 classes x picks) executed" % (n, len(recs) // 256))
     # public pairs handed to Key directly: on-curve accepted, off-curve -> InvalidPublicPairError
     net, keycls = _btc()
     t = K.sec256_table()
@@ -455,6 +460,19 @@ def _wif_worker(args):
                 if obs != (text, sec, K.hash160(sec), comp, se, pub):
                     _merge(mism, [("C10|Key|wif-sec-hash160-of-fresh-key|compressed=%s" % comp,
                                    "%s: key %x: wif/sec/hash160/flag differ from the spec's terms" % (sym, se))])
+                # the public key through SEC on this network: same point, form, hash160, address
+                pk = K.key_from_sec(type(k), sec)
+                n += 1
+                if pk[0] != "ok" or pk[1] != pub or pk[2] != comp or pk[3].address() != k.address() or pk[3].hash160() != k.hash160() \
+                        or pk[3].sec() != sec or pk[3].secret_exponent() is not None:
+                    _merge(mism, [("C10|keys.public|round-trip-through-sec|compressed=%s" % comp, "%s: key %x sec %s -> %s" % (sym, se, sec.hex(), pk[:3]))])
+                try:
+                    pk2 = net.keys.public(sec)
+                    okp = tuple(pk2.public_pair()) == pub and pk2.is_compressed() == comp and pk2.address() == k.address()
+                except Exception as e:  # noqa: BLE001
+                    okp = False
+                if not okp:
+                    _merge(mism, [("C10|network.keys.public|round-trip-through-sec|compressed=%s" % comp, "%s: key %x sec %s" % (sym, se, sec.hex()))])
                 other = K.b58check(pfx + bytes(rec["se"]) + (b"" if comp else b"\1"))
                 if k.wif(is_compressed=not comp) != other or k.sec(is_compressed=not comp) != K.ref_sec(pub, not comp):
                     _merge(mism, [("C10|Key|other-form-of-fresh-key|compressed=%s" % comp, "%s: key %x" % (sym, se))])
@@ -618,6 +636,15 @@ def replay_der(ctx, cfg, r):
             ctx.case(("der-valid", tuple(rec["pre"]), tuple(v["e"])), 0)
         for e in rec["trailing"]:
             ctx.case(("der-trailing", tuple(rec["pre"]), tuple(e)), 0)
+    for rec in recs:
+        if rec["valid"]:
+            ctx.sample({"replay": "der", "blob": bytes(rec["pre"] + rec["valid"][0]["e"]).hex(), "tlc": "strict-valid",
+                        "r": rec["valid"][0]["r"], "s": rec["valid"][0]["s"]})
+            break
+    for rec in recs:
+        if rec["trailing"]:
+            ctx.sample({"replay": "der", "blob": bytes(rec["pre"] + rec["trailing"][0]).hex(), "tlc": "trailing bytes: strict decoding must refuse"})
+            break
     ctx.replayed += n
     ctx.case(None, 2 * n)
     ctx.action("replay." + cfg, n)
@@ -856,7 +883,10 @@ def record_traces(seed, count):
                 payload = pp + body
                 r = K.wif_parse(net, K.b58check(payload))
                 e = {"e": "wifp", "pfx": _bl(pfx), "payload": _bl(payload), "ok": r[0] == "ok", "se": [], "comp": False, "got": r[0], "net": sym,
-                     "raised": False, "shape": "body=%d|last=%s" % (len(body), ("%02x" % body[-1]) if body and body[-1] < 3 else "xx")}
+                     "raised": False,
+                     # a label for the finding key only (the verdict is TLC's)
+                     "shape": "badprefix" if pp != pfx else "marker" if len(body) == 33 and body[-1] != 1 else
+                              "length" if len(body) not in (32, 33) else "wellformed"}
                 if r[0] == "ok":
                     e.update(se=_bl(r[1].to_bytes(32, "big")), comp=r[2])
                 elif r[0] != "none" and r[0] not in K.REFUSALS:
@@ -926,25 +956,34 @@ def ground_truth_traces():
     return [{"kind": "ground-truth", "ev": ev}]
 
 
-def validate_traces(ctx, traces, cname="p43"):
-    """returns (list of (trace index, index of first unexplained event)), TLCResult"""
-    fd, path = tempfile.mkstemp(prefix="vf-c10-traces-", suffix=".json")
-    with os.fdopen(fd, "w") as f:
-        json.dump([{"ev": t["ev"]} for t in traces], f)
+def validate_traces(ctx, batches):
+    """batches: list of (curve name, traces).  One TLC run per batch, run concurrently.
+    Returns for each batch the list of (trace index, index of the first unexplained event)."""
+    jobs = []
+    paths = []
+    for cname, traces in batches:
+        fd, path = tempfile.mkstemp(prefix="vf-c10-traces-", suffix=".json")
+        with os.fdopen(fd, "w") as f:
+            json.dump([{"ev": t["ev"]} for t in traces], f)
+        paths.append(path)
+        jobs.append({"module": "Trace_KeyEnc", "cfg": "Trace_KeyEnc_" + cname, "workers": 1, "env": {"TRACE_FILE": path},
+                     "count": False, "timeout": 1500})
+    out = []
     try:
-        r = ctx.tlc("Trace_KeyEnc", "Trace_KeyEnc_" + cname, workers=1, env={"TRACE_FILE": path}, count=False, timeout=1500)
+        for (job, r), (cname, traces) in zip(tlc_batch(ctx, jobs, conc=4), batches):
+            at = None
+            for rec in r.records:
+                if isinstance(rec, dict) and rec.get("k") == "reached":
+                    if rec["n"] != len(traces):
+                        raise MachineryError("trace run saw %s traces, %d were sent" % (rec["n"], len(traces)))
+                    at = rec["at"]
+            if at is None:
+                raise MachineryError("trace run printed no verdict: %s" % r.raw_tail[-5:])
+            out.append([(i, at[i] - 1) for i in range(len(traces)) if at[i] != len(traces[i]["ev"]) + 1])
     finally:
-        os.unlink(path)
-    at = None
-    for rec in r.records:
-        if isinstance(rec, dict) and rec.get("k") == "reached":
-            if rec["n"] != len(traces):
-                raise MachineryError("trace run saw %s traces, %d were sent" % (rec["n"], len(traces)))
-            at = rec["at"]
-    if at is None:
-        raise MachineryError("trace run printed no verdict: %s" % r.raw_tail[-5:])
-    rej = [(i, at[i] - 1) for i in range(len(traces)) if at[i] != len(traces[i]["ev"]) + 1]
-    return rej, r
+        for path in paths:
+            os.unlink(path)
+    return out
 
 
 def _trace_key(ev):
@@ -956,7 +995,7 @@ def _trace_key(ev):
     if e == "secf":
         return "C10|trace|secf|layer=%s|strict=%s|%s|got=%s" % (ev.get("layer"), ev["strict"], _sec_class(ev["f"]), ev["exc"] if ev["raised"] else ev["ok"])
     if e == "wifp":
-        return "C10|trace|wifp|%s|got=%s" % (ev.get("shape"), ev.get("got"))
+        return "C10|trace|wifp|payload=%s|got=%s" % (ev.get("shape"), "raised" if ev["raised"] else ev.get("got"))
     if e == "toykey":
         return "C10|trace|toykey|got=%s" % ev["exc"]
     if e == "new":
@@ -964,19 +1003,23 @@ def _trace_key(ev):
     return "C10|trace|%s" % e
 
 
-def run_traces(ctx, traces, cname, label):
-    rej, r = validate_traces(ctx, traces, cname)
-    ctx.traces += len(traces) - len(rej)
-    ctx.case(None, sum(len(t["ev"]) for t in traces))
-    ctx.action("trace." + label, len(traces))
-    for i, j in rej:
-        t = traces[i]
-        ev = t["ev"][j] if 0 <= j < len(t["ev"]) else {"e": "?"}
-        if t["kind"] == "ground-truth":
-            raise MachineryError("the spec rejects a ground-truth artefact: %s" % json.dumps(ev)[:400])
-        ctx.fail(_trace_key(ev), "recorded %s trace is not a behaviour of KeyEnc/DerSig: event %d = %s" % (t["kind"], j, json.dumps(ev)[:300]),
-                 {"trace": t, "event_index": j})
-    return rej
+def run_traces(ctx, batches):
+    """batches: list of (curve, label, traces); returns the accepted traces"""
+    good = []
+    for (cname, label, traces), rej in zip(batches, validate_traces(ctx, [(c, t) for c, _, t in batches])):
+        ctx.traces += len(traces) - len(rej)
+        ctx.case(None, sum(len(t["ev"]) for t in traces))
+        ctx.action("trace." + label, len(traces))
+        bad = {i for i, _ in rej}
+        good += [t for i, t in enumerate(traces) if i not in bad]
+        for i, j in rej:
+            t = traces[i]
+            ev = t["ev"][j] if 0 <= j < len(t["ev"]) else {"e": "?"}
+            if t["kind"] == "ground-truth":
+                raise MachineryError("the spec rejects a ground-truth artefact: %s" % json.dumps(ev)[:400])
+            ctx.fail(_trace_key(ev), "recorded %s trace is not a behaviour of KeyEnc/DerSig: event %d = %s" % (t["kind"], j, json.dumps(ev)[:300]),
+                     {"trace": t, "event_index": j})
+    return good
 
 
 # ------------------------------------------------------------------------------------------ main
@@ -1004,26 +1047,21 @@ def run(ctx):
     # ---------------- 1+2. model checking and spec -> code
     toy1 = ["p43", "p83", "p103"]
     sfx = "_q" if q else "_t"
-    jobs = [("MC_KeyEnc_sec_%s%s" % (c, sfx), {}) for c in toy1]
-    jobs += [("MC_KeyEnc_sec_p283c" + sfx, {}), ("MC_KeyEnc_sec_p283u" + sfx, {})]
-    jobs += [("MC_KeyEnc_toykey_%s" % c, {}) for c in toy1 + ["p283"]]
-    jobs += [("MC_KeyEnc_sec256", {}), ("MC_KeyEnc_wif", {}), ("MC_KeyEnc_dersig", {}), ("MC_KeyEnc_der_short", {}),
-             ("MC_KeyEnc_der_grid" + sfx, {}), ("MC_KeyEnc_der_sig" + sfx, {})]
-    jobs += [("MC_KeyEnc_secmut", {"expect_ok": False, "count": False})]
+    names = ["sec_%s%s" % (c, sfx) for c in toy1] + ["sec_p283c" + sfx, "sec_p283u" + sfx]
+    names += ["der_grid" + sfx, "der_sig" + sfx, "der_short", "sec256" + sfx, "wif", "dersig"]
+    names += ["toykey_%s" % c for c in toy1 + ["p283"]]
+    jobs = [{"cfg": "MC_KeyEnc_" + nm} for nm in names] + [{"cfg": "MC_KeyEnc_secmut", "expect_ok": False, "count": False}]
     if ctx.only:
-        jobs = [j for j in jobs if any(o in j[0] for o in ctx.only)]
-    res = tlc_batch(ctx, jobs, conc=3 if q else 2, workers=6 if q else 8)
-
-    for cfg, r in res.items():
-        name = cfg[len("MC_KeyEnc_"):]
+        jobs = [j for j in jobs if any(o in j["cfg"] for o in ctx.only)]
+    for job, r in tlc_batch(ctx, jobs, conc=3 if q else 2, workers=6 if q else 8):
+        name = job["cfg"][len("MC_KeyEnc_"):]
         if name == "secmut":
             ctx.selftest("model_rejects_decoder_without_field_check", (not r.ok) and r.violated == "NoBad")
         elif name.startswith("sec_"):
-            cname = "p283" if "p283" in name else name.split("_")[1]
-            replay_sec_toy(ctx, cname, r)
+            replay_sec_toy(ctx, "p283" if "p283" in name else name.split("_")[1], r)
         elif name.startswith("toykey_"):
             replay_toykey(ctx, name.split("_")[1], r)
-        elif name == "sec256":
+        elif name.startswith("sec256"):
             replay_sec256(ctx, r)
         elif name == "wif":
             replay_wif(ctx, r, q)
@@ -1031,6 +1069,7 @@ def run(ctx):
             replay_dersig(ctx, r)
         elif name.startswith("der_"):
             replay_der(ctx, name, r)
+        r.records = []
     if ctx.only and "trace" not in ctx.only:
         return
 
@@ -1050,15 +1089,15 @@ def run(ctx):
     gt = ground_truth_traces()
     traces = gt + record_traces(ctx.seed * 7919 + 10, ntr)
     ctx.sample({"trace": traces[1]})
-    for ch in split(traces, max(1, len(traces) // 1300)):
-        run_traces(ctx, ch, "p43", "generic")
+    batches = [("p43", "generic", ch) for ch in split(traces, max(1, len(traces) // 900))]
     for cname in ["p43", "p83", "p103", "p283"]:
         tt = record_toy_traces(ctx.seed * 7919 + 10, cname, 60 if q else 500)
-        run_traces(ctx, tt, cname, "toy-" + cname)
+        batches.append((cname, "toy-" + cname, tt))
         if cname == "p43":
             ctx.sample({"trace": tt[0]})
+    good = run_traces(ctx, batches)
     # binding self-test: corrupt one logged field of accepted traces
-    base = [t for t in traces[1:] if t["ev"]]
+    base = [t for t in good if t["ev"] and t["kind"] in ("session", "secf", "der", "wifp")]
     picks = {}
     for t in base:
         picks.setdefault(t["kind"], t)
@@ -1083,6 +1122,6 @@ def run(ctx):
             e["comp"] = not e["comp"]
         muts.append(m)
     orig = [picks[k] for k in sorted(picks)]
-    rej, _ = validate_traces(ctx, orig + muts)
-    ctx.selftest("trace_rejects_corrupted_field", sorted(i for i, _ in rej) == list(range(len(orig), len(orig) + len(muts))))
+    rej = validate_traces(ctx, [("p43", orig + muts)])[0]
+    ctx.selftest("trace_rejects_corrupted_field", len(muts) == 4 and sorted(i for i, _ in rej) == list(range(len(orig), len(orig) + len(muts))))
     ctx.exhaustive = not q
